@@ -386,6 +386,13 @@ class MinErrorFlow():
         """
         utils.logger.info(f"{__name__}: solving with graph id = {utils.fpid(self.G)}")
         start_time = time.perf_counter()
+        if getattr(self, "_second_phase_encoded", False):
+            # A previous solve() replaced the solver by the second-phase (few flow values) model: start again from the first phase
+            self._solution = None
+            self._create_solver()
+            self._encode_flow()
+            self._encode_min_sum_errors_objective()
+            self._second_phase_encoded = False
         self.solver.optimize()
         self.solve_statistics[f"milp_solve_time"] = (time.perf_counter() - start_time)
 
@@ -422,6 +429,7 @@ class MinErrorFlow():
                 ))
 
                 utils.logger.info(f"{__name__}: re-solving now by minimizing the number of different flow values within 1 + epsilon tolerance to the objective value, i.e. <=(1+{self.different_flow_values_epsilon})*{objective_value}")
+                self._second_phase_encoded = True
                 self._create_solver()
                 self._encode_flow()
                 self._encode_different_flow_values_and_objective(
